@@ -26,7 +26,7 @@ ASSUMPTIONS = ['integration tolerances (Nmax=4): lattice-equation residual 1e-3 
                'anisotropy of the exact D limited to 50 (condition number) so that the fixed k-mesh resolves the pole']
 REQUIRED_OBS = {'eval:C10:lattice-equation': 100, 'eval:C10:swap-symmetry': 100, 'eval:C10:group-invariance': 100,
                 'eval:C10:rate-scaling:g': 20, 'eval:C10:far-field': 10, 'eval:C10:biascorrection': 10, 'multi_wyckoff': 3, 'dim2': 3,
-                'directed_slow_long_axis': 10, 'eval:C10:converges-with-mesh': 15}
+                'directed_slow_long_axis': 10, 'eval:C10:converges-with-mesh': 15, 'eval:C10:reuse=fresh': 30, 'reuse:site_energies_moved_oppositely': 2}
 CASE_TIMEOUT = 900
 PER_CASE = 3
 
@@ -234,6 +234,34 @@ def run_case(case):
                       lambda: 'deviations of g/pole from 1 at n=3,%d along a%d (i,j)=(%d,%d): %s (limit %.2f) pre=%s bE=%s preT=%s bET=%s %s'
                       % (n2, a, i, j, devs, lim, pre2, bE2, preT2, bET2, dt()))
             GF.SetRates(w['pre'], w['bE'], w['preT'], w['bET'])
+        # reuse: the same calculator object given new data (site energies of the Wyckoff sets moved in opposite directions with the transition
+        # states fixed - the symmetrised rates then stay the same although the Green function changes - or an entirely new random set) must
+        # agree with a fresh calculator at separations it has already evaluated
+        if done <= 2:
+            try:
+                nW = len(sl)
+                if nW > 1 and rng.uniform() < 0.9:
+                    dE = float(rng.uniform(0.3, 0.9)) * np.array([1. if q % 2 == 0 else -1. for q in range(nW)])
+                    new = (w['pre'], w['bE'] + dE, w['preT'], w['bET'])
+                    how = 'site energies moved oppositely'
+                else:
+                    new = (w['pre'], w['bE'], w['preT'], w['bET'] + rng.normal(size=len(w['bET'])) * 0.4)
+                    how = 'new transition energies'
+                GF.SetRates(*new)
+                GFn = GFcalc.GFCrystalcalc(crys, chem, sl, jn, 4)
+                GFn.SetRates(*new)
+                worst, wpair = 0., None
+                for (i, j, R) in pairs:
+                    x = pos(j, R) - pos(i, np.zeros(dim))
+                    a_, b_ = GF(i, j, x), GFn(i, j, x)
+                    if abs(a_ - b_) > worst: worst, wpair = abs(a_ - b_), (i, j, R.tolist(), a_, b_)
+                mon.count('reuse:' + how.replace(' ', '_'))
+                mon.check(worst <= 1e-9 * max(abs(GFn(0, 0, np.zeros(dim))), 1e-300), 'C10:reuse=fresh',
+                          lambda: 'after SetRates with %s the reused calculator differs from a fresh one by %.3e at %s %s' % (how, worst, wpair, dt()))
+                GF.SetRates(w['pre'], w['bE'], w['preT'], w['bET'])
+            except Exception as e:
+                import traceback
+                mon.fail('C10:reuse:raises:' + type(e).__name__, traceback.format_exc()[-400:] + dt())
         # convergence with the k-point density: whatever residual the default mesh leaves must be integration error, i.e. shrink on a much
         # denser mesh (an error of the analytic pole / cut-off treatment stays on every mesh)
         if done <= 2 and resids and max(resids) > 1e-6:
